@@ -200,6 +200,16 @@ GUARDS = [
 ]
 
 
+def _result_test(e):
+  """`v is None`, `v is not None`, `v`, `not v` for a plain local v."""
+  if isinstance(e, ast.UnaryOp) and isinstance(e.op, ast.Not):
+    e = e.operand
+  if isinstance(e, ast.Name):
+    return True
+  return isinstance(e, ast.Compare) and len(e.ops) == 1 and isinstance(e.ops[0], (ast.Is, ast.IsNot)) and isinstance(e.left, ast.Name) \
+      and isinstance(e.comparators[0], ast.Constant) and e.comparators[0].value is None
+
+
 def r2_validation(repo, rep):
   cls = repo.cls('geoeligibility.GeoEligibility')
   f = cls.methods.get('__init__')
@@ -238,10 +248,10 @@ def r2_validation(repo, rep):
         kind = name
         break
     for r in raises:
-      exc = r.ast.exc
-      exn = norm(exc.func) if isinstance(exc, ast.Call) else (norm(exc) if exc is not None else '')
-      rep.check(exn == 'ValueError', 'R2/validation', 'guard `%s` rejects with ValueError' % norm(n.expr)[:60], f.qualname,
-                norm(r.ast)[:120], 'malformed eligibility table is rejected with %s, not ValueError' % exn, f.loc(r.ast))
+      exn = au.raised_class(repo, f, r.ast)
+      rep.check3(None if exn is None else exn == 'ValueError', 'R2/validation', 'guard `%s` rejects with ValueError' % norm(n.expr)[:60], f.qualname,
+                 norm(r.ast)[:120], 'malformed eligibility table is rejected with %s, not ValueError' % exn, f.loc(r.ast),
+                 why_open='the raised object `%s` is not followed to the construction of an exception' % norm(r.ast.exc)[:60])
     if kind:
       classes.setdefault(kind, []).append((n, lab))
   # known-bad shapes of the 0/1 test: a numeric range test (min/max, < 0, > 1) admits fractions and NaN
@@ -290,17 +300,31 @@ def r2_validation(repo, rep):
   for name, _ in GUARDS:
     if name in classes:
       n0 = classes[name][0][0]
-      rep.check(on_every_path(n0), 'R2/validation', 'guard %s dominates acceptance (self.data = ...)' % name, f.qualname,
+      ok_ = on_every_path(n0)
+      if not ok_ and _result_test(n0.expr):
+        # `r = <offenders> ... if r is not None: raise` under the real condition (left behind by an inlined helper that
+        # reports through its result): whether the inner test can fail is a fact about the value, not about the paths
+        rep.undecided('R2/validation', 'guard %s dominates acceptance (self.data = ...)' % name,
+                      'the rejection is spelled as a test of a computed result (`%s`) under another condition: whether that result test can fail is not decided' % norm(n0.expr)[:60],
+                      f.loc(n0.expr))
+        continue
+      rep.check(ok_, 'R2/validation', 'guard %s dominates acceptance (self.data = ...)' % name, f.qualname,
                 'guard %s: %s' % (name, norm(n0.expr)), 'the %s check does not lie on every path to the acceptance of the table' % name,
                 f.loc(n0.expr))
   if missing:
-    if n_dom < len(GUARDS):
+    local_frames = {dfp} | {t_.id for n_ in g.nodes if n_.kind == 'stmt' and isinstance(n_.ast, ast.Assign) for t_ in n_.ast.targets if isinstance(t_, ast.Name)}
+    helpers = au.unfollowed_calls(repo, f, local_frames)
+    if helpers:
+      rep.undecided('R2/validation', 'guards ' + ', '.join(missing), 'no guard of this kind in the constructor itself, but it hands the table to `%s`, which is not followed: the guard may live there'
+                    % helpers[0][1], f.loc(helpers[0][0]))
+    elif n_dom < len(GUARDS):
       rep.violation('R2/validation', f.qualname, 'missing guard(s): ' + ', '.join(missing),
                     'only %d rejecting guards dominate the acceptance of the table; no guard of kind %s was found — such tables are accepted'
                     % (n_dom, ', '.join(missing)), f.loc(store.ast))
     else:
       rep.undecided('R2/validation', 'guards ' + ', '.join(missing), 'no guard of this kind recognised although %d guards dominate the store' % n_dom, f.loc())
-  rep.floor('rejecting guards in GeoEligibility.__init__', len(guards), 6)
+  if not (missing and helpers):
+    rep.floor('rejecting guards in GeoEligibility.__init__', len(guards), 6)
   # the caller's table is never edited in place: every write effect (attribute/item store, inplace=True call) lands on an
   # object that is a fresh copy (receiver resolved through aliases and re-bindings)
   from mmsa.props import c10
@@ -379,6 +403,67 @@ def r2_validation(repo, rep):
               'conversion of geo IDs to str does not dominate the stored table', f.loc(cn.ast))
 
 
+def _positional_columns(repo, rep, cls, f):
+  """A reader that takes the eligibility columns of the stored table by position (`.to_numpy()[:, j]`, `.values[:, j]`,
+  `.iloc[:, j]`) relies on the constructor having put them in the order control, treatment, exclude: the constructor must
+  select the columns by a literal list in that order.  A selection whose order follows the caller's frame
+  (`columns.intersection(..)`, a filter over `df.columns`) permutes the classes for tables with another column order."""
+  pos = None
+  for sub in ast.walk(f.node):
+    if isinstance(sub, ast.Subscript) and isinstance(sub.slice, ast.Tuple) and len(sub.slice.elts) == 2 \
+        and not (isinstance(sub.slice.elts[1], ast.Constant) and isinstance(sub.slice.elts[1].value, str)) \
+        and not isinstance(sub.slice.elts[1], (ast.List, ast.Slice)) and isinstance(sub.slice.elts[0], ast.Slice):
+      base = sub.value
+      ctx_ = None
+      txt = norm(base)
+      # follow one local (possible = df.to_numpy() == 1)
+      if isinstance(base, ast.Name):
+        defs_ = [a_ for a_ in walk_no_nested(f.node) if isinstance(a_, ast.Assign) and len(a_.targets) == 1 and norm(a_.targets[0]) == base.id]
+        txt = ' '.join(norm(a_.value) for a_ in defs_)
+      if re.search(r'\.to_numpy\(\)|\.values\b|\.iloc\b|np\.(asarray|array)\(', txt) or isinstance(base, ast.Attribute) and base.attr == 'iloc':
+        pos = sub
+        break
+  if pos is None:
+    return
+  init = cls.methods.get('__init__')
+  if init is None:
+    return
+  ordered = False
+  input_order = None
+  WANT = ("'control'", "'treatment'", "'exclude'")
+  g0 = cfgmod.CFG(init.node)
+  rd0 = dataflow.Reaching(g0)
+  from mmsa.types import module_consts
+  rd0.consts = module_consts(init.module)
+  stored_names = {norm(a_.value) for a_ in walk_no_nested(init.node) if isinstance(a_, ast.Assign) and any(norm(t_) == '%s.data' % init.params[0] for t_ in a_.targets)
+                  and isinstance(a_.value, ast.Name)}
+  for n_ in g0.nodes:
+    if n_.kind != 'stmt' or not isinstance(n_.ast, ast.Assign):
+      continue
+    if not (len(n_.ast.targets) == 1 and isinstance(n_.ast.targets[0], ast.Name) and n_.ast.targets[0].id in stored_names):
+      continue        # only selections that build the table that is stored
+    v_ = n_.ast.value
+    for sub in ast.walk(v_):
+      if isinstance(sub, ast.Subscript):
+        sl = sub.slice.elts[1] if isinstance(sub.slice, ast.Tuple) and len(sub.slice.elts) == 2 else sub.slice
+        slx = rd0.expand(n_, sl, keep=tuple(init.params))[0]
+        t_ = norm(slx)
+        if isinstance(slx, (ast.List, ast.Tuple, ast.BinOp)) and all(w_ in t_ for w_ in WANT) and t_.index(WANT[0]) < t_.index(WANT[1]) < t_.index(WANT[2]) \
+            and not any(isinstance(y_, (ast.Call, ast.ListComp, ast.GeneratorExp)) and 'columns' in norm(y_) for y_ in ast.walk(slx)):
+          ordered = True
+        elif re.search(r'columns\.(intersection|isin|difference)\(|for \w+ in \w+\.columns|\.columns\[', t_) or re.search(r'\.filter\(|\.reindex\(', norm(sub.value)):
+          input_order = (n_, t_)
+  if ordered:
+    rep.ok('R3/selection', 'the columns read by position in %s are put in the order control, treatment, exclude by the constructor' % f.name, loc=f.loc(pos))
+  elif input_order is not None:
+    rep.violation('R3/selection', f.qualname, 'columns by position: %s' % norm(pos)[:80],
+                  '%s takes the eligibility columns by position (`%s`), but the constructor selects them with `%s`, whose order follows the caller\'s frame: for a table whose columns are not in the order control, treatment, exclude every geo lands in a permuted class'
+                  % (f.name, norm(pos)[:50], input_order[1][:70]), f.loc(pos))
+  else:
+    rep.undecided('R3/selection', 'columns read by position in %s' % f.name,
+                  '`%s` relies on the column order of the stored table; no selection by a literal ordered list was found in the constructor' % norm(pos)[:50], f.loc(pos))
+
+
 def r3_selection(repo, rep):
   cls = repo.cls('geoeligibility.GeoEligibility')
   f = cls.methods.get('get_eligible_assignments')
@@ -391,6 +476,7 @@ def r3_selection(repo, rep):
   if len(params) < 3:
     raise Undecided('signature changed')
   geos, indices = params[1], params[2]
+  _positional_columns(repo, rep, cls, f)
   # R4: None vs empty
   truthy = []
   for sub in walk_no_nested(f.node):
